@@ -5,10 +5,11 @@
 //!   ax lib [name] [timeout s]                   the library's own regexes: R tree, fresh automaton, shipped automaton
 //!   ax circuit <family> op=.. k=.. in=.. p.x=.. [replay=file]   engine-C extraction (same JSON shape as cx)
 
+#[macro_use]
+mod rx;
 mod circ;
 #[path = "../../extract/src/dump.rs"]
 mod dump;
-mod rx;
 
 use std::{
     panic,
@@ -151,6 +152,9 @@ fn main() {
             }
         }
         "circuit" => circ::main(&args[2..]),
+        // same calling convention as cx (`<family> op=.. k=.. in=.. p.x=..`), so that engine C's argument
+        // builder can be reused as is
+        "automaton" | "base64" => circ::main(&args[1..]),
         _ => {
             eprintln!("usage: ax compile|run|lib|circuit ...");
             std::process::exit(2);
